@@ -141,7 +141,7 @@ class Path:
         return v
 
 
-_STARTED = time.time()
+_STARTED = time.process_time()  # CPU time of this process: the budget must not depend on the machine's load
 BUDGET_S = int(os.environ.get("VERIF_BUDGET_S", "420"))
 P = None  # current path (set by explore)
 MAX_FM = 3000
@@ -676,7 +676,7 @@ def explore(task, max_paths=20000):
         n += 1
         if n > max_paths:
             raise AnalysisError("engine B: path explosion (> %d paths)" % max_paths)
-        if time.time() - _STARTED > BUDGET_S:
+        if time.process_time() - _STARTED > BUDGET_S:
             raise AnalysisError("engine B: analysis budget of %d s exhausted after %d paths of one exploration "
                                 "(the code is outside what this abstract domain summarises)" % (BUDGET_S, n))
         try:
